@@ -77,8 +77,9 @@ def check(ctx):
         for n in walk(b["body"]):
             if n.get("k") == "MethodCall" and cshort(n.get("callee", "")) == "str::contains":
                 a = strip(n["args"][0])
-                if a.get("k") == "Lit":
-                    lits.append((cshort(b["path"]), a["v"]))
+                at = Norm(b).term(a) if a.get("k") != "Lit" else ("lit", a["v"])        # a named constant stands for its text
+                if at[0] == "lit" and isinstance(at[1], str):
+                    lits.append((cshort(b["path"]), at[1]))
                     lit_crates.add(b["path"].split("::")[0])
     vals = {v for _f, v in lits}
     ctx.expect(vals == {"Box<"} and len(lit_crates) >= 2, "C13.1", "box-literal-agreement", "", "all %d Box detections (%s) use the same literal `Box<`" % (len(lits), sorted({f for f, _ in lits})),
